@@ -224,6 +224,7 @@ impl Runner {
                 let b = wire::unhex(hx).unwrap();
                 self.sut.chunk(&b)
             }
+            [t, rx, now, rest @ ..] if *t == "tcase" => crate::stream::tcase_run(self.limit, rx.parse().unwrap(), now.parse().unwrap(), rest),
             ["obs", hx] => match wire::unhex(hx) {
                 Some(b) => self.sut.obs(&b),
                 None => "bad-op".to_string(),
